@@ -1730,7 +1730,7 @@ class Surface(SplineGeometry):
         if self.tessellator is None:
             return list()
         if not self._is_tessellated():
-            self.tessellate()
+            self.tessellate(**getattr(self, '_tsl_args', dict()))  # with the arguments of the request served last
         return self.tessellator.vertices
 
     @property
@@ -1744,7 +1744,7 @@ class Surface(SplineGeometry):
         if self.tessellator is None:
             return list()
         if not self._is_tessellated():
-            self.tessellate()
+            self.tessellate(**getattr(self, '_tsl_args', dict()))  # with the arguments of the request served last
         return self.tessellator.faces
 
     def _is_tessellated(self):
